@@ -216,8 +216,8 @@ class FunctionTranslator:
         if isinstance(node, ast.Expr):
             if isinstance(node.value, ast.Constant) and isinstance(node.value.value, str):
                 return self.t_ok('(Normal st)')                # docstring
-            if isinstance(node.value, ast.Call) and norm(node.value.func).startswith(('log.', 'warnings.warn')):
-                return self.t_ok('(Normal st)')                # logging never changes behaviour
+            if _is_logging(node):
+                return self.t_ok('(Normal st)')                # a logging call with inert arguments changes nothing
             self.fail(node, 'expression statement without a stmt entry')
         if isinstance(node, ast.Pass):
             return self.t_ok('(Normal st)')
@@ -489,9 +489,29 @@ def find_assign(tree, qualname):
     return vals[0] if len(vals) == 1 else None
 
 
+def _inert(e):
+    """an expression whose evaluation cannot raise or change anything: constants, names, attribute reads,
+    type(x), tuples / lists of those"""
+    if isinstance(e, (ast.Constant, ast.Name)):
+        return True
+    if isinstance(e, ast.Attribute):
+        return _inert(e.value)
+    if isinstance(e, (ast.Tuple, ast.List)):
+        return all(_inert(x) for x in e.elts)
+    if isinstance(e, ast.Call) and isinstance(e.func, ast.Name) and e.func.id == 'type' and not e.keywords:
+        return all(_inert(x) for x in e.args)
+    return False
+
+
 def _is_logging(stmt):
-    return isinstance(stmt, ast.Expr) and isinstance(stmt.value, ast.Call) and \
-        norm(stmt.value.func).startswith(('log.', 'warnings.warn'))
+    """a logging / warnings call that can be left out: its arguments are inert.  `log.debug('%s' % x)`,
+    `log.info('...', doc['uid'])`, f-strings and calls in the arguments are evaluated before the logger is asked
+    anything - they can raise, so such a statement is code like any other"""
+    if not (isinstance(stmt, ast.Expr) and isinstance(stmt.value, ast.Call) and
+            norm(stmt.value.func).startswith(('log.', 'warnings.warn'))):
+        return False
+    call = stmt.value
+    return all(_inert(a) for a in call.args) and all(_inert(k.value) for k in call.keywords)
 
 
 class _DropLogging(ast.NodeTransformer):
